@@ -119,7 +119,7 @@ class LotUnpacker:
             # Check for the next loop.
             found_through = thru_rightmost(lot_mo)
 
-            if lot_mo['word_lot_rightmost'] is not None and not found_through:
+            if word_lot_rightmost(lot_mo) and not found_through:
                 word_lot_encountered = len(working_lot_list)
 
         working_lot_list.reverse()
@@ -185,6 +185,22 @@ def get_rightmost_acreage(multilot_mo):
     acreage_string = acreage_string.replace('(', '')
     acreage_string = acreage_string.replace(')', '')
     return acreage_string
+
+
+def word_lot_rightmost(multilot_mo) -> bool:
+    """
+    Whether the word 'Lot' (or an abbreviation) appears directly before
+    the rightmost lot in a multilot_regex or multilot_with_aliquot_regex
+    match object.
+    :param multilot_mo:
+    :return:
+    """
+    # Do NOT rely on the 'word_lot_rightmost' named group alone, because
+    # it will match if it exists, even if it is not the rightmost. But
+    # 'intervener' should always be the rightmost.
+    if multilot_mo['word_lot_rightmost'] is None:
+        return False
+    return multilot_mo.start('word_lot_rightmost') >= multilot_mo.end('intervener')
 
 
 def first_lot_is_plural(multilot_mo) -> bool:
